@@ -210,6 +210,9 @@ func runHealthz(id int, seed int64, steps int) []interface{} {
 		panic(err)
 	}
 	hs := ghealth.NewServer()
+	if id%2 == 1 {
+		hs = health.NewServer() // larking's own constructor of the health server: nothing set but the overall status
+	}
 	var dropAt int = -1
 	var conns []*grpc.ClientConn
 	if variant == 2 {
@@ -239,7 +242,7 @@ func runHealthz(id int, seed int64, steps int) []interface{} {
 		panic(err)
 	}
 	evs := []interface{}{HEv{Ev: "HReset", Case: id}}
-	services := []string{"", "svc.A", "svc.B", "a/b c"}
+	services := []string{"", "svc.A", "svc.B", "a/b c", "grpc.health.v1.Health", "grpc.health.v1.Health.Check"}
 	statuses := []healthpb.HealthCheckResponse_ServingStatus{
 		healthpb.HealthCheckResponse_SERVING, healthpb.HealthCheckResponse_NOT_SERVING,
 		healthpb.HealthCheckResponse_UNKNOWN, healthpb.HealthCheckResponse_SERVICE_UNKNOWN,
